@@ -2,6 +2,7 @@ package pkgworld
 
 import (
 	"context"
+	"crypto/sha256"
 	"fmt"
 	"strings"
 
@@ -58,11 +59,12 @@ var (
 
 // Opts configures the world.
 type Opts struct {
-	Resolver       bool
-	Upgrades       bool // EnableAlphaDependencyVersionUpgrades
-	Downgrades     bool
+	Resolver        bool
+	Upgrades        bool // EnableAlphaDependencyVersionUpgrades
+	Downgrades      bool
 	MaxEstablishers int
-	DiskFaults     bool
+	DiskFaults      bool
+	Verify          bool // EnableAlphaSignatureVerification (the signature controller is the environment)
 }
 
 // W is the package world.
@@ -96,6 +98,15 @@ func New(s *sim.Sim, res *runner.Result, o Opts) (*W, error) {
 	w.MemFs = afero.NewMemMapFs()
 	_ = w.MemFs.MkdirAll("/cache", 0o755)
 	w.Disk = simfs.New(w.MemFs)
+	w.ExtraState = func() string {
+		fis, _ := afero.ReadDir(w.MemFs, "/cache")
+		h := sha256.New()
+		for _, fi := range fis {
+			b, _ := afero.ReadFile(w.MemFs, "/cache/"+fi.Name())
+			fmt.Fprintf(h, "%s:%d:%x;", fi.Name(), len(b), sha256.Sum256(b))
+		}
+		return fmt.Sprintf("%x", h.Sum(nil))
+	}
 	w.Disk.Crash = func() { s.Crash(w.Proc, nil) }
 	w.Disk.Dead = func() bool { return w.Proc.Dead }
 	if err := w.Direct.Create(context.Background(), &v1beta1.Lock{ObjectMeta: metav1.ObjectMeta{Name: "lock"}}); err != nil {
@@ -148,6 +159,9 @@ func (w *W) NewProcess() {
 	metaScheme, _ := xpkg.BuildMetaScheme()
 	objScheme, _ := xpkg.BuildObjectScheme()
 	flags := &feature.Flags{}
+	if w.Opts.Verify {
+		flags.Enable(features.EnableAlphaSignatureVerification)
+	}
 	if w.Opts.Upgrades {
 		flags.Enable(features.EnableAlphaDependencyVersionUpgrades)
 	}
